@@ -316,10 +316,106 @@ fn scalar_at_cut(ctx: &Ctx, rep: &mut Report) {
     }
 }
 
+/// Long inputs: every kind of run (string payloads with each terminator, text, digits,
+/// parameters, line feeds, ...) at every length around the powers of two and of ten up to
+/// 2^17+ (thorough 2^20+), fed in ONE call, in pieces of 1000 and of 4096 characters,
+/// split in the middle, and through feed(): same screen, cursor, dump() and lines().
+fn long_runs(ctx: &Ctx, rep: &mut Report) {
+    let t0 = Instant::now();
+    let max_pow = ctx.tier.pick(17u32, 20);
+    let mut lens: Vec<usize> = vec![];
+    for k in 6..=max_pow {
+        let p = 1usize << k;
+        lens.extend([p - 2, p - 1, p, p + 1, p + 2]);
+    }
+    for k in 2..=6u32 {
+        let p = 10usize.pow(k);
+        if p <= (1 << max_pow) {
+            lens.extend([p - 1, p, p + 1]);
+        }
+    }
+    lens.extend([20000, 50000, 70000]);
+    lens.sort();
+    lens.dedup();
+    // (name, prefix, unit repeated to the length, suffix)
+    let kinds: &[(&str, &str, &str, &str)] = &[
+        ("OSC payload / BEL", "ab\r\n\x1b]1337;", "p", "\x07cd"),
+        ("OSC payload / ESC \\", "ab\x1b]0;", "p", "\x1b\\cd"),
+        ("8-bit OSC payload / 8-bit ST", "ab\u{9d}0;", "é", "\u{9c}cd"),
+        ("DCS payload", "ab\x1bP1;2q", "p", "\x1b\\cd"),
+        ("SOS payload", "ab\x1bX", "p", "\u{9c}cd"),
+        ("APC payload", "ab\x1b_G", "p", "\x1b\\cd"),
+        ("text", "\x1b[2;2H", "t", "\x1b[1mz"),
+        ("wide text", "", "漢", "z"),
+        ("CSI digits", "ab\x1b[", "1", "mcd"),
+        ("CSI parameters", "ab\x1b[", "1;", "mcd"),
+        ("line feeds", "ab", "\n", "cd"),
+        ("numbered lines", "", "7\r\n", "cd"),
+        ("short sequences", "ab", "\x1b[C\x1b[D", "cd"),
+        ("CSI-ignore body", "ab\x1b[?1$$", "0", "hcd"),
+    ];
+    let cfgs = [Cfg::new(5, 3, None), Cfg::new(5, 3, Some(3))];
+    let cases: Vec<(usize, usize, usize)> = (0..kinds.len()).flat_map(|k| lens.iter().flat_map(move |&l| (0..2).map(move |c| (k, l, c)))).collect();
+    let bad: Vec<String> = cases
+        .par_iter()
+        .filter_map(|&(k, l, ci)| {
+            let (name, pre, unit, suf) = kinds[k];
+            let cfg = cfgs[ci];
+            let r = guarded(|| {
+                let reps = l / unit.chars().count().max(1);
+                let s = format!("{}{}{}", pre, unit.repeat(reps), suf);
+                let mut whole = cfg.build();
+                let _ = whole.feed_str(&s);
+                let want = final_of(&cfg, &whole);
+                let chars: Vec<char> = s.chars().collect();
+                for piece in [1000usize, 4096, chars.len() / 2 + 1] {
+                    let mut vt = cfg.build();
+                    for ch in chars.chunks(piece) {
+                        let t: String = ch.iter().collect();
+                        let _ = vt.feed_str(&t);
+                    }
+                    let got = final_of(&cfg, &vt);
+                    if got != want {
+                        return Some(format!("pieces of {} characters: {}", piece, diff(&got, &want)));
+                    }
+                }
+                let mut pc = cfg.build();
+                for &c in &chars {
+                    pc.feed(c);
+                }
+                let _ = pc.feed_str("");
+                let _ = whole.feed_str("");
+                let (got, want) = (final_of(&cfg, &pc), final_of(&cfg, &whole));
+                if got.obs != want.obs || got.dump != want.dump {
+                    return Some(format!("feed() per character: {}", diff(&got, &want)));
+                }
+                None
+            });
+            match r {
+                Ok(None) => None,
+                Ok(Some(d)) => Some(format!("[{}] {} of length {}: {}", cfg.name(), name, l, if d.len() > 600 { d.chars().take(600).collect::<String>() } else { d })),
+                Err(p) => Some(format!("[{}] {} of length {}: panic: {}", cfg.name(), name, l, p)),
+            }
+        })
+        .collect();
+    let runs = cases.len() as u64 * 5;
+    rep.evaluations += runs;
+    rep.transitions += runs;
+    rep.traces_validated += cases.len() as u64;
+    rep.parts.push(json!({"part":"long-runs","kinds":kinds.len(),"lengths":lens.len(),"max_length":lens.last(),"runs":runs,"violating":bad.len(),"wall_s":t0.elapsed().as_secs_f64()}));
+    println!("part long-runs: {} kinds x {} lengths up to {} x 2 configurations x 5 chunkings, {} violating ({:.1}s)", kinds.len(), lens.len(), lens.last().unwrap(), bad.len(), t0.elapsed().as_secs_f64());
+    if let Some(d) = bad.first() {
+        emit_violation(ctx, rep, "C12", json!({"part":"long-runs","oracle":"feed_str-chunking","observed":d}));
+        rep.violations += bad.len() as u64 - 1;
+    }
+}
+
 pub fn run(ctx: &Ctx) -> Report {
     let mut rep = Report::new();
     crate::engine::install_panic_hook();
     scalar_at_cut(ctx, &mut rep);
+    super::stream::run(ctx, &mut rep, "C12", "character-level-strings", "feed_str-chunking", true);
+    long_runs(ctx, &mut rep);
     let k = ctx.tier.pick(3, 4);
     let strs3 = strings(3, ctx.tier == Tier::Quick);
     let strs4 = if k == 4 { strings(4, false) } else { vec![] };
@@ -393,6 +489,16 @@ pub fn run(ctx: &Ctx) -> Report {
 }
 
 pub fn replay(ctx: &Ctx, v: &Value) -> bool {
+    if v["part"] == "long-runs" {
+        let mut rep = Report::new();
+        let tier = if v["tier"] == "thorough" { Tier::Thorough } else { Tier::Quick };
+        let c2 = Ctx { id: ctx.id.clone(), tier, seed: 0, start: ctx.start, known: ctx.known.clone(), replay_dir: ctx.replay_dir.clone() };
+        long_runs(&c2, &mut rep);
+        return rep.violations > 0;
+    }
+    if v["part"] == "character-level-strings" {
+        return super::stream::replay(v, true);
+    }
     if v["part"] == "scalar-at-cut" {
         let mut rep = Report::new();
         let c2 = Ctx { id: ctx.id.clone(), tier: Tier::Thorough, seed: 0, start: ctx.start, known: ctx.known.clone(), replay_dir: ctx.replay_dir.clone() };
